@@ -233,4 +233,11 @@ func URLEscape
   loop 0 inv [headOK] (!cob.copied && n > 0) ==> (n == 1 && len(v) == 1 && utf8lenTable[v[0]] >= 2 && utf8lenTable[v[0]] <= 4)
   loop 0 inv [copiedWhy] cob.copied ==> (exists k int :: 0 <= k && k < i && !passes(v, k))
   loop 0 dec limit - i
+
+// ---- PrioritizedSlice (C20) ----
+// the comparison handed to sort.Slice: element i goes before element j iff its Priority is smaller
+func PrioritizedSlice.Sort$1
+  requires 0 <= i && i < len(*s) && 0 <= j && j < len(*s)
+  ensures result <==> ((*s)[i].Priority < (*s)[j].Priority)
+  modifies nothing
 @*/
